@@ -28,26 +28,7 @@ TRANSLATORS = ["T-hashes", "T-storeconsts"]
 
 # Genuine defects of halmos reproduced by this check on the unchanged tree.  A failing input
 # whose `sig` matches one of these is printed as KNOWN-FINDING and does not fail the check.
-KNOWN = [
-    {"id": "C08-narrow-constant-key", "property": "C08",
-     "what": "an element of a mapping with non-256-bit (bytes/string) keys reached with a CONCRETE key is hashed concretely (generic layout: same when the mapping itself sits at a hashed location -- f_sha3_N(const) is not decomposed); its registered term f_sha3_N(const) has no Concat left, decode returns it undecoded and int_of substitutes the hash back, so the location is a scalar slot, whereas the same element reached with a symbolic key is (slot, [key, 0]): mapping(bytes => uint) m at slot 5; m[k] = v with symbolic 2-byte k, then m[hex'0000'] reads 0 for k = 0 (and a write through the constant is not seen through the symbolic key)",
-     "match": {"feature": "narrow-constant-key"}},
-    {"id": "C08-generic-hash-valued-key", "property": "C08",
-     "what": "generic layout: a mapping key that is itself a keccak hash is replaced by its 513-bit generic encoding, so sizes and values of different access paths coincide: mapping(bytes32 => uint[]) m at slot 0: the length slot of m[keccak(2)] and element 0 of m[2] are both decoded to the 1026-bit term 2*2^770",
-     "match": {"feature": "hash-valued-key", "layout": "generic"}},
-    {"id": "C08-mixed-width-keys-alias", "property": "C08",
-     "what": "solidity layout: the keys of nested mappings are compared as ONE concatenated bit-vector, and the chunk is identified by (slot, number of keys, total key size) only, so two accesses to a mapping with variable-length (bytes/string) keys whose key widths differ but add up to the same total alias when the concatenations coincide: mapping(bytes => mapping(bytes => uint)) m; m[hex'ab'][hex'00cd'] = 0x42; then m[hex'ab00'][hex'cd'] reads 0x42 (EVM: 0); the generic layout concatenates key and base inside the hash encoding and aliases likewise, e.g. m[hex'01'][hex'0000'] with m[hex'0001'][hex'00']",
-     "match": {"feature": "mixed-width-keys"}},
-    {"id": "C08-F4-unregistered-hash-constant", "property": "C08",
-     "what": "a storage location written as a hash constant (PUSH32 keccak(p) [+ offset]) that is in neither the precomputed tables nor yet registered by a run-time SHA3 is decoded as a scalar slot; the same location spelled through a run-time hash (or after the hash got registered) is decoded as an array/mapping element, so a write through one spelling is not seen through the other (SSTORE(PUSH32 keccak(100000)); SHA3(100000); SLOAD(same constant) returns 0)",
-     "match": {"feature": "unresolved-hash-constant"}},
-    {"id": "C08-bucket-crossing-constant", "property": "C08",
-     "what": "OffsetMap finds hash+delta only inside the hash's own 2^16 bucket: keccak(p)+d with (keccak(p) & 0xffff)+d outside [0,0xffff] is not recognised although the hash is registered (dynamic array at slot 17573: keccak & 0xffff = 0xffff, so element 1 written as a folded constant is a different location than element i=1 computed at run time; likewise any constant index >= 2^16 folded into the hash constant, e.g. a[65536])",
-     "match": {"feature": "bucket-crossing-constant"}},
-    {"id": "C08-generic-negative-offset", "property": "C08",
-     "what": "generic layout: a constant keccak(p)-1 is looked up as f_sha3(p) + (2^256-1); add_all zero-extends the 256-bit addend to the 513-bit hash encoding, so (keccak(p)-1)+n never equals the element n-1 (carry not dropped): SSTORE(keccak(4), v); SLOAD((keccak(4)-1)+n) returns 0 for n = 1",
-     "match": {"feature_in": ["negative-offset-constant", "wrapping-offset"], "layout": "generic"}},
-]
+KNOWN = common.known_for("C08")  # entries live in /verif/known_findings.json
 
 ASSUMPTIONS = [
     "solver oracle soundness: an `unsat` answer of Exec.check is correct (hypothesis of C08_raw / C08_sequences, stated in the theorems)",
